@@ -49,6 +49,8 @@ def run_one(unit, f, expr):
         return "undecided"
     finally:
         shutil.rmtree(ov, ignore_errors=True)
+        import hashlib
+        shutil.rmtree(os.path.join(V, ".cache", "build", "%s-ov-%s" % (unit, hashlib.sha256(ov.encode()).hexdigest()[:10])), ignore_errors=True)
 
 def selftest(unit, jobs=4, expected_fail=()):
     ms = parse(unit)
